@@ -58,3 +58,25 @@ Proof. reflexivity. Qed.
 
 Lemma fingerprints_tied : gen_fingerprints = golden_fingerprints.
 Proof. reflexivity. Qed.
+
+Lemma model_tied_to_source :
+  (gen_any_wild = golden_any_wild /\ gen_any_wild_flags = golden_any_wild_flags)
+  /\ (pr re_q = gen_frag_q /\ pr re_star = gen_frag_star /\ pr re_dstar = gen_frag_dstar
+      /\ pr re_dstarslash = gen_frag_dstarslash)
+  /\ (forall body, pr (RCls true body) = fill gen_cls_neg [body])
+  /\ (forall body, pr (RCls false body) = fill gen_cls_pos [body])
+  /\ (forall n, pr (RRef n) = fill gen_ref [n])
+  /\ (forall n a, pr (RGrp n a) = fill gen_grp [n; pr a])
+  /\ (forall n, pr (RGrp n re_plus) = fill gen_post_encl_grp [n])
+  /\ pr re_plus = gen_post_trail_plus /\ pr re_optslash = gen_post_optslash
+  /\ re_escape_specials = gen_escape_specials
+  /\ gen_fingerprints = golden_fingerprints.
+Proof.
+  split; [exact tokenizer_source_tied|].
+  split; [repeat split; apply fragments_tied|].
+  split; [apply templates_tied|]. split; [apply templates_tied|].
+  split; [apply templates_tied|]. split; [apply templates_tied|].
+  split; [apply post_processing_tied|]. split; [apply post_processing_tied|].
+  split; [apply post_processing_tied|].
+  split; [exact escape_tied|exact fingerprints_tied].
+Qed.
